@@ -80,6 +80,15 @@ def _case(draw, ctx):
                                  pools=(POOL2 if ci == 0 else POOL3,), name=f"ch{ci}",
                                  max_insts=draw(st.sampled_from([0, 0, 1]))))
         children.append(ch)
+    ft_child = None
+    if draw(st.integers(0, 3)) == 0:
+        # a child with a feed-through port (input that is also an output): add_subcircuit only
+        ftc = draw(S.circuit_spec(min_inputs=1, max_inputs=3, min_gates=1, max_gates=4, max_fanin=3,
+                                  pools=([f"z{i}" for i in range(20)],), name="chft", io_outputs=True))
+        ins_ft = [x for x in ftc["nodes"] if x[1] == "input"]
+        ins_ft[0][3] = True
+        children.append(ftc)
+        ft_child = len(children) - 1
     nets = [x[0] for x in parent["nodes"]]
     steps = []
     pending = []  # (name, child) blackboxes awaiting fill
@@ -95,10 +104,12 @@ def _case(draw, ctx):
             nets += [f"{name}_{x[0]}" for x in ch["nodes"]]
             continue
         ci = draw(st.integers(0, nch - 1))
+        if ft_child is not None and draw(st.booleans()):
+            ci, op = ft_child, "sub"
         ch = children[ci]
         name = f"s{si}"
         ins = [x[0] for x in ch["nodes"] if x[1] == "input"]
-        outs = [x[0] for x in ch["nodes"] if x[3]]
+        outs = [x[0] for x in ch["nodes"] if x[3] and x[1] != "input"]
         conns = {}
         fresh = []
         for i in ins:
@@ -161,6 +172,7 @@ def check(case, ctx):
     child_snaps = [refsim.snapshot(ch) for ch in children]
     p_inputs, p_outputs = set(P.inputs()), set(P.outputs())
     bbobjs = {}
+    bbtypes_by_child = {}
     labels = set()
     nested = False
     conn_in = conn_out = False
@@ -184,7 +196,8 @@ def check(case, ctx):
         elif op == "sub":
             need(lib(P.add_subcircuit, ch, name, conns), "add_subcircuit", where)
         elif op == "bb":
-            bb = cg.BlackBox(f"t_{name}", sorted(ch.inputs()), sorted(ch.outputs()))
+            # instances of the same child share one BlackBox object, as netlists with many flops do
+            bb = bbtypes_by_child.setdefault(step["child"], cg.BlackBox(f"t_{step['child']}", sorted(ch.inputs()), sorted(ch.outputs())))
             bbobjs[name] = bb
             need(lib(P.add_blackbox, bb, name, conns), "add_blackbox", where)
         else:
